@@ -652,6 +652,20 @@ def S5(ctx: Ctx) -> RuleResult:
     if not loops:
         raise AnalysisError('S5', 'HplExpression.type_check_references: no traversal loop found')
     lp = loops[0]
+    gen_mode = False
+    if isinstance(lp.iter, Call) and call_recv(lp.iter) == self_t and base.resolve(call_name(lp.iter) or '') is not None and lp.target != '<while>':
+        # two stages: a generator method walks the tree and yields the nodes to check; the loop here checks each of them
+        gfi = base.resolve(call_name(lp.iter))
+        each = Sym(f'each:{lp.target}')
+        all_checked = bool(lp.paths) and all(not pg and flow == 'end' and any(call_recv(c) == each for c in method_calls(effs, 'type_check_references')) for pg, flow, binds, effs in lp.paths)
+        if not all_checked:
+            r.fail('HplExpression.type_check_references:skip', f'not every node produced by {gfi.name}() is checked', fi.where)
+        gouts = ctx.ev.run(gfi, {'self': self_t})
+        gloops = [e for o in gouts for e in o.effects if isinstance(e, Loop)]
+        if not gloops:
+            raise AnalysisError('S5', f'HplExpression.{gfi.name}: no traversal loop found')
+        lp = gloops[0]
+        gen_mode = True
     if not (isinstance(lp.iter, TupleT) and lp.iter.items == (self_t,)):
         r.fail('HplExpression.type_check_references:start', f'the work list does not start from self: {lp.iter!r}', fi.where)
     for pg, flow, binds, effs in lp.paths:
@@ -659,6 +673,9 @@ def S5(ctx: Ctx) -> RuleResult:
         pushes = [c for c in method_calls(effs, 'extend') + method_calls(effs, 'append')]
         pushes_children = any(any(isinstance(y, Call) and call_name(y) == 'children' for y in walk(c)) for c in pushes)
         delegates = bool(method_calls(effs, 'type_check_references'))
+        if gen_mode:
+            popped = [v for _, v in binds if isinstance(v, Call) and call_name(v) == 'pop' and call_recv(v) == lp.iter]
+            delegates = any(isinstance(e, Op) and e.op == 'yield' and e.args and e.args[0] in popped for e in effs)
         acc_guard = [(t, pol) for t, pol in norm_guards(pg) if isinstance(t, Attr) and t.name == 'is_accessor']
         if delegates and acc_guard and acc_guard[0][1]:
             r.ok(f'{desc} accessor -> its own type_check_references')
